@@ -113,15 +113,22 @@ def check(ctx):
         c = toks[0]
         posname = mk.args.args[3].arg if len(mk.args.args) > 3 else "pos"
         from .c09 import _single_def
-        colarg = c.args[3] if len(c.args) > 3 else next((k.value for k in c.keywords if k.arg == "column"), None)
+        # Token is a dataclass: its fields, in order, are its constructor parameters - arguments read the same by position or by keyword
+        tcls = lx.classes.get("Token")
+        tfields = [st.target.id for st in tcls.body if isinstance(st, ast.AnnAssign) and isinstance(st.target, ast.Name)] if tcls is not None else ["type", "value", "lineno", "column", "filename"]
+        byname = dict(zip(tfields, c.args))
+        for k_ in c.keywords:
+            if k_.arg:
+                byname[k_.arg] = k_.value
+        colarg = byname.get("column")
         colexpr = colarg
         if isinstance(colarg, ast.Name):
             d = _single_def(mk, colarg.id)
             colexpr = d if isinstance(d, ast.AST) else None
         col_defs = [colexpr] if colexpr is not None else []
         col_ok = colexpr is not None and S.unparse(colexpr) == f"{posname} - self._line_start + 1"
-        args = [S.unparse(a) for a in c.args] + [f"{k.arg}={S.unparse(k.value)}" for k in c.keywords]
-        ok = col_ok and len(args) >= 5 and args[2] == "self._lineno" and args[4] in ("self._filename", "filename=self._filename")
+        args = [f"{f_}={S.unparse(byname[f_])}" for f_ in tfields if f_ in byname]
+        ok = col_ok and "lineno" in byname and S.unparse(byname["lineno"]) == "self._lineno" and "filename" in byname and S.unparse(byname["filename"]) == "self._filename"
         ctx.oblige("R-C11.4", "token position = (current line, start offset - line start + 1, current file)", ok, sample={"rule": "R-C11.4", "Token args": args, "column": S.unparse(col_defs[0]) if col_defs else None})
         if not ok:
             ctx.violation("R-C11.4", "token-position", f"_make_token must stamp Token(type, value, self._lineno, pos - self._line_start + 1, self._filename); found args {args}, column = {S.unparse(col_defs[0]) if col_defs else None}", file=lx.rel, function="CLexer._make_token")
